@@ -127,8 +127,10 @@ pub fn enum_iter_inner(ast: &DeriveInput) -> syn::Result<TokenStream> {
 
             #[inline]
             fn nth(&mut self, n: usize) -> ::core::option::Option<<Self as Iterator>::Item> {
-                let idx = self.idx + n + 1;
-                if idx + self.back_idx > #variant_count {
+                // `n` is caller supplied and may be as large as `usize::MAX`, so saturate
+                // instead of overflowing; a saturated value is always past the end.
+                let idx = self.idx.saturating_add(n).saturating_add(1);
+                if idx.saturating_add(self.back_idx) > #variant_count {
                     // We went past the end of the iterator. Freeze idx at #variant_count
                     // so that it doesn't overflow if the user calls this repeatedly.
                     // See PR #76 for context.
